@@ -185,6 +185,23 @@ def run_items(R, items):
     ans = dict(zip(idx, lean_query(lines)))
     for i, (it, r) in enumerate(zip(items, flat)):
         judge(R, it, r, ans.get(i, "err no-replay"))
+    # the faithful mirror of the whole routine (positivity graph, mirrored matching on the mirrored Ford-Fulkerson, subtraction loop:
+    # C06_bvnMirror_spec / _ok_iff) returns the SAME terms in the same order on inputs where float arithmetic is exact. WHICH decomposition is
+    # returned is not part of the property, so this is model coverage
+    ex = [(it, r) for it, r in zip(items, flat) if it.get("exact") and "terms" in r and len(it["X"]) <= 6]
+    if ex:
+        mir = lean_query([" ".join(["bvnmirror", str(len(it["X"]))] + [str(x) for row in it["X"] for x in row]) for it, _ in ex])
+        for (it, r), a in zip(ex, mir):
+            n = len(it["X"])
+            toks = ["ok", str(len(r["terms"]))]
+            try:
+                for t in r["terms"]:
+                    toks.append(str(t["z"]))
+                    toks += [str(row.index(1)) if 1 in row else str(n) for row in t["P"]]
+                exp = " ".join(toks)
+            except Exception:  # noqa
+                exp = "uninterpretable"
+            R.glue("mirror:birkhoff_von_neumann term by term (dyadic inputs)", exp == a, {"X": it["X"], "real": exp[:300], "model": a[:300]})
 
 
 def eating_outputs(R, count):
